@@ -308,11 +308,26 @@ func (ex *Exec) applyContract(fr *Frame, st *State, c *FuncContract, pnames []st
 			ex.assumeTyped(st, v)
 		}
 	}
+	// a result the contract declares fresh is a new object: the contents of its fields are whatever the ensures
+	// clauses say, not what the pre-state heap held at that (then unallocated) reference
+	for i, v := range results {
+		if !declaresFresh(c, i, len(results)) {
+			continue
+		}
+		if pt, ok := v.T.Underlying().(*types.Pointer); ok && len(v.C) == 1 {
+			for _, k := range refKeys(pt.Elem()) {
+				srt := keySortReg[k]
+				fv := Fresh(k+".new", srt.Elem)
+				st.heap.m[k] = Store(st.heap.Get(k, srt), v.C[0], fv)
+			}
+		}
+	}
 	post := &Env{ex: ex, vars: vars, st: st, old: pre, pkg: pkg, results: results, resTup: sig.Results()}
 	for _, e := range c.Ensures {
 		g, err := post.boolExpr(e.E, false)
 		if err != nil {
-			ex.bindingError(fname, "use-post", site, e, err)
+			// a postcondition that talks about the callee's locals (checked where the callee is verified) says
+			// nothing to a caller
 			continue
 		}
 		ex.assume(st.pc, g)
@@ -791,4 +806,31 @@ func (ex *Exec) copyBuiltin(fr *Frame, st *State, c *ssa.CallCommon, args []Valu
 		st.heap.m[k] = Store(arr, d.C[0], na)
 	}
 	return Value{T: types.Typ[types.Int], C: []*Term{n}}
+}
+
+// declaresFresh: some ensures clause of c contains fresh(result) / fresh(result<i>).
+func declaresFresh(c *FuncContract, i int, n int) bool {
+	names := map[string]bool{fmt.Sprintf("result%d", i): true}
+	if n == 1 {
+		names["result"] = true
+	}
+	found := false
+	var walk func(e *Expr)
+	walk = func(e *Expr) {
+		if e == nil || found {
+			return
+		}
+		if e.Kind == "call" && e.Name == "fresh" && len(e.Args) == 1 && e.Args[0].Kind == "ident" && names[e.Args[0].Name] {
+			found = true
+			return
+		}
+		walk(e.X)
+		for _, a := range e.Args {
+			walk(a)
+		}
+	}
+	for _, cl := range c.Ensures {
+		walk(cl.E)
+	}
+	return found
 }
